@@ -180,7 +180,7 @@ func v13bVisible(rounds int, window bool) {
 	var t v13bTable
 	// earlier history: nothing, or key a (and b)
 	hist := verif.Choose("history", 3)
-	if window {
+	if window || rounds > 1 {
 		verif.Assume(hist > 0) // the window needs a key that is already cached
 	}
 	for i := 0; i < hist; i++ {
@@ -194,13 +194,17 @@ func v13bVisible(rounds int, window bool) {
 	}
 	// A is a reader that may have looked at the table before (warm cache).
 	var cachedA *v13bTable
-	if warm := verif.Choose("warmA", v13bNAPI+1); warm > 0 {
+	nWarm := v13bNAPI + 1
+	if rounds > 1 {
+		nWarm = 2 // cold, or warmed by All
+	}
+	if warm := verif.Choose("warmA", nWarm); warm > 0 {
 		verif.Assert(v13bRead(ctx, a, warm-1, 0, &t), "read-before-commit")
 		c := t
 		cachedA = &c
 	}
 	var cachedB *v13bTable
-	if verif.Choose("warmB", 2) == 1 {
+	if rounds > 1 || verif.Choose("warmB", 2) == 1 {
 		verif.Assert(v13bRead(ctx, b, v13bAll, 0, &t), "read-before-commit")
 		c := t
 		cachedB = &c
@@ -282,7 +286,7 @@ func VerifH_C13_O4_acknowledged_commit_visible_to_other_handle() { v13bVisible(1
 func VerifH_C13_O4b_lookup_staleness_window() { v13bVisible(1, true) }
 
 // verif:desc C13-O4 (two rounds) as VerifH_C13_O4_acknowledged_commit_visible_to_other_handle with two successive changes by B, each followed by the reads
-// verif:bounds as the quick harness with 2 rounds
+// verif:bounds as the quick harness with 2 rounds, history 1..2, A cold or warmed by All, B warm
 // verif:outside as VerifH_C13_O4_acknowledged_commit_visible_to_other_handle
 // verif:tier thorough
 func VerifH_C13_O4_acknowledged_commit_visible_two_rounds() { v13bVisible(2, false) }
